@@ -38,7 +38,7 @@ MIN = {"R14": 8, "R1": 1, "R2": 3, "R3": 1, "R4": 2, "R5": 3, "R6": 1, "R7": 2, 
 TRUSTED = ["resolved call graph is an over-approximation of the dynamic one (typed resolution + name-CHA fallback + "
            "all overriding subclasses); classes chosen by name on the command line are subclasses of the declared bases",
            "numpy comparison semantics: `x >= 0` is False for NaN"]
-TECHNIQUE = "call-graph reachability with a forbidden-load set, guard dominance on the CFG, sibling agreement, relational normal forms"
+TECHNIQUE = "call-graph reachability with a forbidden-load set, guard dominance on the CFG, sibling agreement, relational normal forms; effect analysis of the samplers' methods (no store to an ingestion holder outside the constructor, followed through self-calls)"
 LEVEL_TEXT = ("An over-approximate information-flow argument: no function reachable from the scoring, selection, "
               "distance and prediction entry points can read observation values at all, and training is fed only "
               "observed rows behind a dominating refusal - hence identical outputs for any two screens differing only "
